@@ -141,6 +141,9 @@ func (i *interpreter) global(g *ssa.Global) *value {
 		return r
 	}
 	cell := zero(mustDeref(g.Type()))
+	if c, ok := i.shared.constInit[g]; ok {
+		cell = constValue(c)
+	}
 	i.globals[g] = &cell
 	return &cell
 }
